@@ -132,7 +132,7 @@ class contentsSet(GenericEquality):
             if f(x):
                 yield x.location
             else:
-                yield x
+                yield normpath(x)
 
     @staticmethod
     def _ensure_fsbase(iterable):
